@@ -65,6 +65,8 @@ pub struct Case {
     /// packet (the other order in the address space)
     pub prog_shift: u8,
     pub mbuff_first: bool,
+    /// 0 = separate mappings; 1 / 2 = metadata buffer directly below / above the packet
+    pub adjacent: u8,
     /// backing store of the shifted copy (filled by `with_placement`)
     pub shifted: Vec<u8>,
 }
@@ -88,6 +90,7 @@ impl Case {
             end_aligned: true,
             prog_shift: 0,
             mbuff_first: false,
+            adjacent: 0,
             shifted: Vec::new(),
         }
     }
@@ -111,6 +114,7 @@ impl Case {
         let mut c = self.clone();
         c.end_aligned = !self.end_aligned;
         c.mbuff_first = !self.mbuff_first;
+        c.adjacent = [1u8, 2, 0][(k / 7 % 3) as usize];
         c.prog_shift = 1 + k % 7;
         let mut st = vec![0xEEu8; c.prog_shift as usize];
         st.extend_from_slice(&self.prog);
@@ -144,6 +148,7 @@ impl Case {
             "class": self.class,
             "end_aligned": self.end_aligned,
             "mbuff_first": self.mbuff_first,
+            "adjacent": self.adjacent,
             "prog_shift": self.prog_shift,
             "disasm": disasm_lossy(&self.prog, 64),
         })
@@ -169,6 +174,7 @@ impl Case {
             end_aligned: v.get("end_aligned").and_then(|x| x.as_bool()).unwrap_or(true),
             prog_shift: 0,
             mbuff_first: v.get("mbuff_first").and_then(|x| x.as_bool()).unwrap_or(false),
+            adjacent: v.get("adjacent").and_then(|x| x.as_u64()).unwrap_or(0) as u8,
             shifted: Vec::new(),
         }
         .shifted_by(v.get("prog_shift").and_then(|x| x.as_u64()).unwrap_or(0) as u8)
